@@ -145,6 +145,22 @@ PROPS = {
         "rule": "cases = grammar with must/raise/try_catch constructs (systematic contexts + seeded random) x input x configuration; "
                 "non-trivial = rule invocations left by an exception (xc events) validated by TLC",
     },
+    "C03": {
+        "families": ["oob"],
+        "must_count": ["acc", "slices", "cases"],
+        "nontrivial_key": "slices",
+        "level": "the harness of this family is built with -DTAO_PEGTL_VERIF and AddressSanitizer; the hook reports every peek and "
+                 "bump of memory_input / buffer_input with the bytes available in the input's current window (also the inner input of "
+                 "rematch and the end lowered by limit_bytes); PegContract has no action for an access outside the window -- it is a "
+                 "verdict -- and requires 0 <= cursor <= logical end <= size at every event.  Every library rule, the contrib "
+                 "scanners, UTF-16/32 and uintN rules and the shipped json / uri / http grammars run on exact-size heap blocks "
+                 "(redzone directly behind the data) and on slices whose surroundings would extend a match; a slice result that "
+                 "differs from the denotation of the logical input is a bounds verdict",
+        "rule": "cases = rule or grammar x input (all strings to the bound, every truncation and single deletion of sample "
+                "documents) x {exact block, slice + four fillers} x {plain, rematch inner input, limit_bytes}; non-trivial = slice runs",
+        "note": "raw current()-based reads beyond a lowered end that stay inside the allocation show only through their effect on "
+                "the result; a sanitizer abort ends the suite's process and is reported as a crash verdict",
+    },
     "C04": {
         "families": ["act", "core"],
         "must_count": ["act", "cases"],
